@@ -229,6 +229,8 @@ def real_save(case, d, log, mode=None):
     """Run the real IndxIO.save on simulated disk d through a logging SimFile; return it."""
     IndxIO = catii_indxio()
     f = d.writer(mode or case["wmode"], case.get("bufsize"))
+    if f.append:
+        f.ops_reliable = False  # offsets of writes through an O_APPEND handle are not what tell() says
     entries = entries_dict(case)
     try:
         with warnings.catch_warnings():
@@ -239,6 +241,9 @@ def real_save(case, d, log, mode=None):
         raise SaveRaised(e)
     log.add("save", tuple(f.calls))
     return f
+
+
+HELD = []  # (case, loaded) of the earlier files of the current run
 
 
 class SaveRaised(Exception):
@@ -331,7 +336,8 @@ def c10_execute(case, stats, log):
     case = expand(case)
     with disk.SimDisk() as d:
         f = real_save(case, d, log)
-        disk.check_log_reproduces(f.ops, d)
+        if not f.append:
+            disk.check_log_reproduces(f.ops, d)
         f.close()
         log.add_bytes(d.content())
         try:
@@ -339,6 +345,16 @@ def c10_execute(case, stats, log):
         except Exception as e:
             raise Violation(prop, "load-raised:" + type(e).__name__, "save-load", "load of a complete file raised %r" % (e,))
         compare_loaded(prop, "save-load", case, loaded)
+        # what earlier loads of this run returned must still be intact (nothing handed out twice)
+        for n, (old_case, old_loaded) in enumerate(HELD):
+            try:
+                compare_loaded(prop, "earlier-load-still-intact", old_case, old_loaded)
+            except Violation as v:
+                v.message = "after the next load, the result of an earlier load changed: " + v.message
+                raise
+        HELD.append((case, loaded))
+        if len(HELD) > 1:
+            stats.count("probe_earlier_load_rechecked_after_next_load")
         if "shape" in case:
             from catii import iindex
 
@@ -453,9 +469,11 @@ def c11_execute(case, stats, log):
         return c11_scale(case, stats, log)
     case = expand(case)
     want_entries = [(tuple(k), v) for k, v in case["entries"]]
+    del HELD[:]
     with disk.SimDisk() as d:
         f = real_save(case, d, log)
-        disk.check_log_reproduces(f.ops, d)
+        if not f.append:
+            disk.check_log_reproduces(f.ops, d)
         f.close()
         data = d.content()
     log.add_bytes(data)
@@ -495,6 +513,9 @@ def c11_execute(case, stats, log):
                 except Exception as e:
                     raise Violation(prop, "loader-rejects-documented-file:" + type(e).__name__, where, repr(e))
                 compare_loaded(prop, where, case, loaded, rowid_word)
+                for old_word, old_loaded in HELD[-2:]:
+                    compare_loaded(prop, "earlier-load-still-intact", case, old_loaded, old_word)
+                HELD.append((rowid_word, loaded))
             stats.count("ref_to_lib_files")
             stats.count("ref_to_lib_iw%d_rw%d" % (index_word, rowid_word))
     stats.count("profile_" + word_profile(case))
@@ -590,8 +611,40 @@ def c12_big(case, stats, log):
         if len(survived) > k or survived == full:
             raise core.HarnessError("RLIMIT_FSIZE=%d left %d bytes of %d" % (k, len(survived), n))
         _must_reject(prop, survived, "fulldisk:big:%d" % k, rmode, stats, log, n)
+    with disk.SimDisk() as d:
+        probe = real_save(case, d, log)
+        ncalls = len(probe.calls)
+        probe.close()
+    idxs = sorted(set(range(min(ncalls, 30))) | set(range(max(0, ncalls - 10), ncalls)) | {rnd.randrange(ncalls) for _ in range(10)})
+    live_faults(prop, case, full, idxs, rmode, stats, log)
     stats.count("big_files")
     stats.maximum("max_file_len", n)
+
+
+def live_faults(prop, case, full, call_indexes, rmode, stats, log):
+    for j in call_indexes:
+        with disk.SimDisk() as d:
+            fobj = d.writer(case["wmode"], case.get("bufsize"), fail_at=j)
+            try:
+                with warnings.catch_warnings():
+                    warnings.simplefilter("ignore")
+                    catii_indxio().save(fobj, entries_dict(case), case["common"], U32)
+            except BaseException as e:  # noqa: B902
+                if isinstance(e, (KeyboardInterrupt, SystemExit, MemoryError)):
+                    raise
+            fired = fobj.failed
+            try:
+                fobj._f.close()  # the writer goes away; what it still buffered is flushed or lost, both are real
+            except Exception:
+                pass
+            survived = d.content()
+            if not fired:
+                continue
+            stats.count("fault_io_error_during_save")
+            if survived == full:
+                stats.count("io_error_after_last_byte")
+                continue
+            _must_reject(prop, survived, "live:%s:call%d" % (case["wmode"], j), rmode, stats, log, len(full))
 
 
 def c12_execute(case, stats, log, only=None):
@@ -600,9 +653,11 @@ def c12_execute(case, stats, log, only=None):
     if is_big(case):
         return c12_big(case, stats, log)
     rmode = case["rmode"]
+    logmode = {"append": "raw", "bufappend": "bufw"}.get(case["wmode"], case["wmode"])
     with disk.SimDisk() as d:
-        f = real_save(case, d, log)
-        disk.check_log_reproduces(f.ops, d)
+        f = real_save(case, d, log, mode=logmode)
+        if not f.append:
+            disk.check_log_reproduces(f.ops, d)
         ops = f.ops
         f.close()
         full = d.content()
@@ -653,6 +708,10 @@ def c12_execute(case, stats, log, only=None):
                 if survived == full:
                     raise core.HarnessError("full-disk run produced the complete file")
                 _must_reject(prop, survived, "fulldisk:%s:%d" % (mode, k), rmode, stats, log, len(full))
+    # 4. the device fails (EIO) at the j-th call on the file object WHILE the real save runs, for every j:
+    #    whatever save did around the file object (pre-allocation, truncation, rewriting) is on the disk too
+    if only is None or only["fault"] == "live":
+        live_faults(prop, case, full, range(len(f.calls)), rmode, stats, log)
     # 3. the file is torn IN PLACE (same inode) after this very process loaded the complete copy and
     #    still holds what it loaded: "rewrite in place, crash" with a long-running reader
     if (only is None or only["fault"] == "inplace") and 16 < len(full) <= 4000:
@@ -692,6 +751,7 @@ def files_of(case):
 
 
 def execute_all(prop, case, stats, log):
+    del HELD[:]
     for n, one in enumerate(files_of(case)):
         try:
             EXECUTORS[prop](one, stats, log)
@@ -787,7 +847,9 @@ def minimise(prop, case, signature):
     ents = core.ddmin(best["entries"], lambda sub: _fails_same(prop, with_entries(sub), signature))
     best = with_entries(ents)
     # shrink each row-id list, then each value
-    for i in range(len(best["entries"])):
+    for i in range(min(len(best["entries"]), 40)):
+        if not core.minimise_time_left():
+            break
         k, v = best["entries"][i]
         v2 = core.ddmin(v, lambda sub: _fails_same(
             prop, with_entries(best["entries"][:i] + [[k, sub]] + best["entries"][i + 1:]), signature))
